@@ -173,6 +173,10 @@ def coinsStr (cs : Coins) : String :=
 def resStr : Res → String
   | .ok => "ok" | .fail => "fail" | .skip => "skip"
 
+/-- FNV-1a, 32 bit (the harness shortens long dumps the same way) -/
+def fnv32 (s : String) : UInt32 :=
+  s.toUTF8.foldl (fun h b => (h ^^^ b.toUInt32) * 16777619) 2166136261
+
 def showOutcome (dump : List Addr) : Outcome → String
   | .refuse .initialHeight => "refuse:initial-height"
   | .refuse .gasReplayMode => "refuse:gas-replay-mode"
@@ -187,13 +191,16 @@ def showOutcome (dump : List Addr) : Outcome → String
     let parts := dump.filterMap fun a =>
       (st.lookup a).map fun ac => s!"a{a - 1}#{ac.num}/{ac.seq}:{coinsStr ac.coins}"
     let acc := if parts.isEmpty then "-" else ";".intercalate parts
+    let acc := if acc.utf8ByteSize > 90 then s!"#{parts.length}:{fnv32 acc}" else acc
     s!"ok v{ver} tx={tx} fc={fc} acc={acc}"
 
 def step (_ : Unit) (t : List String) : Unit × String :=
   match parse t with
   | none => ((), "err:badop")
   | some p =>
-    ((), s!"mem={showOutcome p.dump (outcomeMem p.g)} str={showOutcome p.dump (outcomeStream p.g (Streamed.whole p.g))}")
+    let m := showOutcome p.dump (outcomeMem p.g)
+    let s := showOutcome p.dump (outcomeStream p.g (Streamed.whole p.g))
+    ((), if m == s then s!"mem={m} str==" else s!"mem={m} str={s}")
 
 end GnoVerif.Drive.C53
 
